@@ -24,7 +24,8 @@ EXPLANATION = (
     'lint, EvalCtx._evaluate and EvalCtx.declarations obtain the table of a read through '
     "names_at(np(read)) of the read's own region (one resolution path). R4: memo getters take no "
     'request-specific argument. R5: the memo sites on call cycles through EvalCtx.evaluate and the readers of the '
-    'partial-table memos are compared with the sets triaged on the reference tree; a new one is reported. Equality of '
+    'partial-table memos are compared with the sets triaged on the reference tree; a new one is reported. R6: a memo written '
+    'in the try/except-AttributeError idiom stores exactly the value its first call returns. Equality of '
     'answers under concrete query orders is NOT decided.')
 TECHNIQUE = 'memo-site inventory + typed call-graph cycle analysis through re-entrancy-guarded functions'
 
@@ -286,6 +287,43 @@ def run(repo, res):
         res.check('C04-R4', '%s arguments' % fi.qual, ok, fi.rel, fi.node.lineno,
                   'memo %s (%s) is keyed by nothing but takes arguments %s: a value computed for one request '
                   'would be served to another' % (fi.qual, s['kind'], params), nontrivial=False)
+    # ---- R6 a memo returns on the first call what it stores for the later ones ---------------------------------
+    for s_ in sites:
+        if not s_['kind'].startswith('attribute idiom'):
+            continue
+        fi = s_['fi']
+        attr = s_['attr']
+        stores = [n for n in ast.walk(fi.node) if isinstance(n, ast.Assign)
+                  and any(unparse(t) == 'self.' + attr for t in n.targets)]
+        rets = [n for n in fi.node.body if isinstance(n, ast.Return)]
+        ok = True
+        why = ''
+        if not stores or not rets:
+            ok, why = False, 'no store or no final return'
+        else:
+            last_ret = rets[-1]
+            for st in ([] if unparse(last_ret.value) == 'self.' + attr else stores):
+                # the stored expression: a variable, or a chained assignment `result = self._x = expr`
+                names = [unparse(t) for t in st.targets if isinstance(t, ast.Name)]
+                stored = unparse(st.value) if isinstance(st.value, ast.Name) else (names[0] if names else None)
+                if isinstance(st.value, ast.Constant):
+                    continue        # placeholder store (e.g. self._instance = None before the computation)
+                if stored is None:
+                    ok, why = False, 'the stored value `%s` is not a variable the function returns' % unparse(st.value)
+                    break
+                later = [n for n in ast.walk(fi.node) if isinstance(n, (ast.Assign, ast.AugAssign))
+                         and n.lineno > st.lineno and any(unparse(t) == stored for t in
+                                                          (n.targets if isinstance(n, ast.Assign) else [n.target]))]
+                if later:
+                    ok, why = False, '`%s` is reassigned at line %d after it was stored' % (stored, later[0].lineno)
+                    break
+                if unparse(last_ret.value) not in (stored, 'self.' + attr):
+                    ok, why = False, 'returns `%s` but stores `%s`' % (unparse(last_ret.value), stored)
+                    break
+        res.check('C04-R6', '%s stores what it returns' % fi.qual, ok, fi.rel, fi.node.lineno,
+                  'the memo %s (attribute %s) does not store the value its first call returns (%s): repeated identical queries '
+                  'get different answers' % (fi.qual, attr, why), sample='%s: first-call value == memoised value' % fi.qual)
+
     # context_property ignores ctx in its key: ctx may only carry the project and the re-entrancy state
     ectx = get_facts(repo).classes.get('EvalCtx')
     if ectx is None:
